@@ -29,6 +29,7 @@ const (
 	KClosure // function value (only MakeClosure / *ssa.Function operands)
 	KGhost   // named SMT sort declared in a contract file
 	KRegexp  // *regexp.Regexp: the pattern string
+	KSeq     // ghost: an SMT array Int -> Elem (the contents of a backing array)
 )
 
 type Ty struct {
@@ -68,6 +69,8 @@ func (t *Ty) Sort() string {
 		return "SV_" + t.Name
 	case KGhost:
 		return t.Name
+	case KSeq:
+		return "(Array Int " + t.Elem.Sort() + ")"
 	}
 	panic(fmt.Sprintf("no sort for type kind %d", t.K))
 }
@@ -101,6 +104,8 @@ func (t *Ty) MemKey() string {
 		return "g_" + t.Name
 	case KRegexp:
 		return "regexp"
+	case KSeq:
+		return "seq_" + t.Elem.MemKey()
 	}
 	return "unk"
 }
@@ -137,7 +142,7 @@ func sameTy(a, b *Ty) bool {
 		return false
 	}
 	switch a.K {
-	case KSlice, KPtr, KArrPtr:
+	case KSlice, KPtr, KArrPtr, KSeq:
 		return sameTy(a.Elem, b.Elem)
 	case KMap:
 		return sameTy(a.Key, b.Key) && sameTy(a.Val, b.Val)
